@@ -91,6 +91,14 @@ def r13_2(ctx):
         if h is None:
             raise AnchorMissing('R13.2: %s.hash' % cname)
         hashed = _self_attrs_in(h.node)
+        # a helper extracted from hash() (a method the confirmed reference does not have, called from hash) is part of hash()
+        from sa import alpha as _alpha
+        for _depth in range(2):
+            for c in [x for x in ast.walk(h.node) if isinstance(x, ast.Call) and isinstance(x.func, ast.Attribute)
+                      and isinstance(x.func.value, ast.Name) and x.func.value.id == 'self' and x.func.attr in cls.methods]:
+                mm = cls.methods[c.func.attr]
+                if _alpha.is_new_function(mm.qual):
+                    hashed |= _self_attrs_in(mm.node)
         ctx.count('R13.2 attributes of %s read by the generator' % cname, len(attrs_read))
         for a, node in sorted(attrs_read.items()):
             construct = '%s.%s.hash' % (VF, cname)
